@@ -439,3 +439,36 @@ func (c *Ctx) transportCloseMethod(tr *types.Named) string {
 	}
 	return found
 }
+
+// getterField: call invokes a library accessor that does nothing but return one member of its receiver (possibly under
+// a lock): the key of that member, or "".
+func getterField(c *Ctx, v ssa.Value) string {
+	call, ok := v.(*ssa.Call)
+	if !ok {
+		return ""
+	}
+	sc := ir.StaticCallee(call)
+	if sc == nil || !c.P.IsLib(sc) || sc.Signature.Recv() == nil || len(sc.Params) != 1 {
+		return ""
+	}
+	key := ""
+	nRet := 0
+	ir.EachInstr(sc, func(blk *ssa.BasicBlock, _ int, in ssa.Instruction) {
+		r, ok := in.(*ssa.Return)
+		if !ok || blk == sc.Recover {
+			return
+		}
+		nRet++
+		res := ir.Results(r)
+		if len(res) != 1 {
+			return
+		}
+		if f, base, ok := ir.LoadedField(res[0]); ok && base == ssa.Value(sc.Params[0]) {
+			key = f.Key()
+		}
+	})
+	if nRet != 1 {
+		return ""
+	}
+	return key
+}
